@@ -44,6 +44,8 @@ type Solver struct {
 	QZ3, QText, QUnknown int
 	TZ3, TText           time.Duration
 	TextLog              []textQuery // escalated queries (for selfcheck)
+	Z3Log                []textQuery // sample of in-process queries, rendered as SMT-LIB2 (for selfcheck)
+	sampleEvery          int
 	rne, rtz             C.Z3_ast
 }
 
@@ -286,6 +288,15 @@ func (z *Solver) Check(extra *Term, vars []*Term) (Res, Model) {
 	}
 	C.Z3_solver_pop(z.ctx, z.s, 1)
 	z.TZ3 += time.Since(t0)
+	// cross-solver self check: every so often the query is also kept as text
+	if res != Unknown && len(z.Z3Log) < 6 && z.QZ3%997 == 1 {
+		conj := append(append([]*Term{}, z.asserted...), extra)
+		if extra == nil {
+			conj = conj[:len(conj)-1]
+		}
+		text, _ := smtText(conj, nil)
+		z.Z3Log = append(z.Z3Log, textQuery{Text: text, Result: res, Solver: "z3-4.8.12-api"})
+	}
 	if res == Unknown {
 		// escalate to the text back ends
 		conj := sliceFor(z.asserted, extra)
